@@ -925,6 +925,12 @@ func cdChildMain() {
 		fmt.Fprintln(os.Stderr, "fatal error: setrlimit:", err)
 		os.Exit(3)
 	}
+	go func() { // do not outlive the harness (a stuck decode would not notice the closed stdin)
+		for parent := os.Getppid(); os.Getppid() == parent; {
+			time.Sleep(time.Second)
+		}
+		os.Exit(4)
+	}()
 	out := os.NewFile(3, "answers")
 	fmt.Fprintln(out, "ready")
 	in := bufio.NewReaderSize(os.Stdin, 1<<16)
@@ -1004,7 +1010,6 @@ func cdStartChild(aslimitMB int64) *cdChild {
 	ch.cmd.Env = append(os.Environ(), "VERIF_CODEC_CHILD=1", fmt.Sprintf("VERIF_CODEC_ASLIMIT_MB=%d", aslimitMB))
 	ch.cmd.ExtraFiles = []*os.File{w} // fd 3 in the child
 	ch.cmd.Stderr = ch.stderr         // stdout: discarded
-	ch.cmd.SysProcAttr = &syscall.SysProcAttr{Pdeathsig: syscall.SIGKILL}
 	if ch.stdin, err = ch.cmd.StdinPipe(); err == nil {
 		err = ch.cmd.Start()
 	}
